@@ -259,7 +259,7 @@ fn execute_system_part(plan: &Plan, dir: &str) -> Outcome {
         UdpTarget { ip: U_IP, port: U_PORT + 1, name: Some(U_NAME.to_owned()), replies: 1, reply_size: 300 },
     ];
     let ops: Vec<UdpOp> = frames.iter().enumerate().flat_map(|(i, (by_name, size))| [UdpOp::Send { t: *by_name as usize, size: (*size).max(9) }, UdpOp::Pause(if i % 2 == 0 { 0 } else { 30 })]).collect();
-    let up = UdpPlan { apps: vec![ops], targets, loss_pm: 0, dup_pm: 0, reorder_pm: 0, second_client_password: None };
+    let up = UdpPlan { apps: vec![ops], targets, loss_pm: 0, dup_pm: 0, reorder_pm: 0, second_client_password: None, send_faults: false };
     let run_one = |script: DirScript| {
         let (c2s, s2c) = if dir == "c2s" { (script, DirScript::default()) } else { (DirScript::default(), script) };
         rt::run_sim(plan.seed, plan.net_seed, plan.knobs.to_knobs(), || async {
